@@ -394,7 +394,9 @@ def ob_deser(chk, w):
             if c.startswith("bincode::") and ("decode" in c) and any(x in g for x in ("PredictorData", "CharScorer", "TypeScorer")):
                 callers.setdefault(short_fn(bd.fn), []).append(c.split("::")[-1])
     allowed = {"<PredictorData as BorrowDecode>::borrow_decode", "Predictor::deserialize_from_slice_unchecked"}
-    chk.ob("R18.2", "DESER:decode-entry-points", set(callers) == allowed, "predictor types are decoded in %s; only %s may (the automaton bytes are not verified)" % (sorted(callers), sorted(allowed)), sample={"callers": callers})
+    # who-may-call: no decoder of predictor types outside the two reviewed places (a generic helper inlined into one of them hides
+    # the concrete type of its own call, so only the entry point itself is required to be seen)
+    chk.ob("R18.2", "DESER:decode-entry-points", set(callers) <= allowed and "Predictor::deserialize_from_slice_unchecked" in callers, "predictor types are decoded in %s; only %s may (the automaton bytes are not verified)" % (sorted(callers), sorted(allowed)), sample={"callers": callers})
     f = w.fn_item(C.P + "::deserialize_from_slice_unchecked")
     chk.ob("R18.2", "DESER:entry-is-unsafe-fn", f is not None and f["unsafe"], "Predictor::deserialize_from_slice_unchecked is not an unsafe fn")
     ucallers = []
